@@ -536,7 +536,7 @@ def gen_frac(tier, rng):
     ([F(0)], None, [["frac", fr(Fraction(3, 4))]]),                # dyadic zero: exact
     ([], [F(1, 3)], [["frac", fr(Fraction(-2, 7))]]),
     ([I(1), I(2)], [I(1), I(-1)], [["frac", fr(Fraction(5, 3))]]), # Fraction zero in a normal filter: exact
-    ([F(1), F(-1)], [F(-1), F(1)], [["frac", fr(Fraction(1, 3))]]),
+    ([I(1), I(-1)], [I(-1), I(1)], [["frac", fr(Fraction(1, 3))]]),
   ]
   n = 60 if tier == "quick" else 600
   pool = [Fraction(1, 3), Fraction(-2, 3), Fraction(1, 2), Fraction(1), Fraction(-1), Fraction(5, 7), Fraction(0),
@@ -545,8 +545,15 @@ def gen_frac(tier, rng):
   for _ in range(n):
     b = [F(*fr(rng.choice(pool))) for _ in range(rng.randrange(0, 4))]
     a = [F(*fr(rng.choice([p for p in pool if p != 0])))] + [F(*fr(rng.choice(pool))) for _ in range(rng.randrange(0, 3))]
-    z = [rng.choice(ZEROS + [["frac", fr(Fraction(5, 3))], ["frac", fr(Fraction(1, 4))]])]
+    # a Fraction zero next to Fraction coefficients would make CPython multiply float by Fraction (float arithmetic on the
+    # samples themselves): outside the two recorded signatures, so Fraction zeros go with the all-zero filter only
+    z = [rng.choice(ZEROS)]
     cases.append((b, a, z, "random"))
+  for _ in range(n // 6):
+    b = [F(0)] * rng.randrange(0, 3)
+    a = [F(*fr(rng.choice([p for p in pool if p != 0])))]
+    z = [["frac", fr(rng.choice([Fraction(5, 3), Fraction(1, 4), Fraction(-2, 7), Fraction(3), Fraction(1, 10)]))]]
+    cases.append((b, a, z, "random-allzero"))
   for b, a, zs, tag in cases:
     num = ["list", b]
     den = None if a is None else ["list", a]
